@@ -108,7 +108,7 @@ func runPrio(c *Ctx) {
 		c.R.Add("PRIO-D", "resolver|discount-site", "resolver", p.Pos(res.Pos()), false, "the resolver discounts in-edges of same-named value vertices", "no re-weighting site found")
 		return
 	}
-	c.R.Add("PRIO-D", "resolver|discount-site", "resolver", r1.Pos, core.Outer(r1.Fn) == res, "the only re-weighting of existing edges happens in the resolver", "in "+core.FuncName(r1.Fn))
+	c.R.Add("PRIO-D", "resolver|discount-site", "resolver", r1.Pos, core.Outer(r1.Fn) == res || p.InRegion(r1.Fn, res), "the only re-weighting of existing edges happens in the resolver", "in "+core.FuncName(r1.Fn))
 	rcall := r1.Call
 	cg := rcall.Common().Args[0]
 	cpCall, isCopy := cg.(*ssa.Call)
@@ -118,7 +118,7 @@ func runPrio(c *Ctx) {
 			gParam = prm
 		}
 	}
-	onCopy := isCopy && core.CalleeName(cpCall.Common()) == core.GCopy && cpCall.Common().Args[0] == ssa.Value(gParam)
+	onCopy := isCopy && core.CalleeName(cpCall.Common()) == core.GCopy && p.Bind(cpCall.Common().Args[0]) == ssa.Value(gParam)
 	c.R.Add("PRIO-D", "resolver|discount-on-private-copy", "resolver", r1.Pos, onCopy,
 		"re-weighting is applied to a Copy() of the call's graph, never to the graph shared by all parameters", fmt.Sprintf("ok=%v", onCopy))
 	// src ranges over InEdges(copy, raw)
@@ -181,8 +181,8 @@ func runPrio(c *Ctx) {
 		"each parameter gets its own copy (made inside the per-parameter iteration), so one parameter's discounts never leak into the next", fmt.Sprintf("ok=%v", perParam))
 
 	// ---------------- PRIO-P: path selection pairing
-	djs := core.Calls(res, core.GDijkstra)
-	e2p := core.Calls(res, core.GEdgeToPath)
+	djs := p.RegionCalls(res, core.GDijkstra)
+	e2p := p.RegionCalls(res, core.GEdgeToPath)
 	if len(djs) != 1 || len(e2p) != 1 {
 		c.R.Undecided("PRIO-P", "resolver|search", "resolver", p.Pos(res.Pos()), fmt.Sprintf("expected one Dijkstra and one EdgeToPath call, found %d/%d", len(djs), len(e2p)))
 	} else {
@@ -205,7 +205,8 @@ func runPrio(c *Ctx) {
 				}
 			}
 		}
-		c.R.Add("PRIO-P", "resolver|from-root", "resolver", p.InstrPos(dj), rootP != nil && dj.Common().Args[1] == ssa.Value(rootP), "the search starts at the input root", fmt.Sprintf("ok=%v", rootP != nil && dj.Common().Args[1] == ssa.Value(rootP)))
+		fromRoot := rootP != nil && p.Bind(dj.Common().Args[1]) == ssa.Value(rootP)
+		c.R.Add("PRIO-P", "resolver|from-root", "resolver", p.InstrPos(dj), fromRoot, "the search starts at the input root", fmt.Sprintf("ok=%v", fromRoot))
 		sameG := searched != nil && ep.Common().Args[0] == searched
 		c.R.Add("PRIO-P", "resolver|path-read-from-searched-graph", "resolver", p.InstrPos(ep), sameG, "the path is reconstructed on the very graph value that was searched", fmt.Sprintf("ok=%v", sameG))
 		fromDj := false
@@ -219,7 +220,7 @@ func runPrio(c *Ctx) {
 		if searched != nil {
 			gOK = true
 			for _, s := range core.Sources(searched) {
-				if s != ssa.Value(gParam) && !(isCopy && s == ssa.Value(cpCall)) {
+				if p.Bind(s) != ssa.Value(gParam) && !(isCopy && s == ssa.Value(cpCall)) {
 					gOK = false
 				}
 			}
@@ -344,7 +345,7 @@ func (c *Ctx) runDirectUse(res *ssa.Function, kinds *core.Kinds, wMatch int64) {
 	// candidate: argMap[VertexID(out)] = assert<value>(out).Value
 	var hit *ssa.MapUpdate
 	var outV ssa.Value
-	core.Instrs(res, func(in ssa.Instruction) {
+	p.RegionInstrs(res, func(in ssa.Instruction) {
 		mu, ok := in.(*ssa.MapUpdate)
 		if !ok {
 			return
@@ -361,7 +362,7 @@ func (c *Ctx) runDirectUse(res *ssa.Function, kinds *core.Kinds, wMatch int64) {
 		if !ok || core.CalleeName(id.Common()) != core.GVertexID || id.Common().Args[0] != ta.X {
 			return
 		}
-		if _, isMake := mu.Map.(*ssa.MakeMap); !isMake {
+		if _, isMake := p.Bind(mu.Map).(*ssa.MakeMap); !isMake {
 			return
 		}
 		hit, outV = mu, ta.X
@@ -386,7 +387,7 @@ func (c *Ctx) runDirectUse(res *ssa.Function, kinds *core.Kinds, wMatch int64) {
 		}
 		if l.Kind == "cmp" && l.Op == token.EQL && l.Pol && rootP != nil {
 			for _, pair := range [][2]ssa.Value{{l.X, l.Y}, {l.Y, l.X}} {
-				if pair[1] == ssa.Value(rootP) {
+				if p.Bind(pair[1]) == ssa.Value(rootP) {
 					if r, ok := core.Root(pair[0]).(*ssa.Call); ok && core.CalleeName(r.Common()) == core.GOutEdges && r.Common().Args[1] == outV {
 						hangs = true
 					}
@@ -406,7 +407,7 @@ func (c *Ctx) runDirectUse(res *ssa.Function, kinds *core.Kinds, wMatch int64) {
 	// not path-searched: the block that queues the requirement for path search is unreachable from the
 	// direct-use block within the same iteration (boolean flag evaluation)
 	var queue *ssa.Call
-	core.Instrs(res, func(in ssa.Instruction) {
+	core.Instrs(hit.Parent(), func(in ssa.Instruction) {
 		if cl, ok := in.(*ssa.Call); ok && core.CalleeName(cl.Common()) == "builtin.append" {
 			for _, e := range appendedValues(cl) {
 				if e == core.Strip(outV) || e == outV {
